@@ -33,7 +33,7 @@ BOUNDS = {
 ASSUMPTIONS = [
     "ref/tlv.py transcribes CCSDS 727.0-B-5 5.4 (selftest/st_ref_tlv.py binds it to the octets asserted by tests/cfdp/tlvslvs and tests/cfdp/pdus)",
     "file names are encoded as UTF-8 (the library's documented str API); the second file name LV is present exactly for RENAME, APPEND, REPLACE",
-    "status-code alphabet = the codes the library's FilestoreResponseStatusCode enum defines for the action; the enum's completeness with respect to table 5-18 is reported in the coverage, not judged",
+    "status codes: every (action, status) pair of table 5-18 must decode, and every enum member named after a row of the table must carry that row's nibble (ref/tlv.py STD_STATUS_BY_MEANING); the parameter sweeps additionally use every code the library's enum defines for the action",
     "a type-mismatch error is TlvTypeMissmatch; TlvHolder conversions may also raise TypeError (DESIGN.md 5.6); an undefined type octet may be refused with any documented error",
     "values of length 3..255 are covered by 5 shaped contents per length (thorough: every 3-octet value through CfdpTlv type 5 and CfdpLv), not exhaustively",
 ]
@@ -55,6 +55,9 @@ class Lib:
         self.TlvHolder = tlv.TlvHolder
         self.Missmatch = TlvTypeMissmatch
         self.documented = (ValueError, TlvTypeMissmatch)
+        self.FilestoreResponseStatusCode = tlv.FilestoreResponseStatusCode
+        self.FilestoreActionCode = tlv.FilestoreActionCode
+        self.FileStoreResponseTlv = tlv.FileStoreResponseTlv
 
 
 def lib() -> Lib:
@@ -156,6 +159,7 @@ def shards(tier):
     items.append({"kind": "corpus", "tier": tier})
     for t in R.DEFINED_TYPES:
         items.append({"kind": "tlvhist", "t": t, "depth": 3 if tier == "quick" else 4})
+    items.append({"kind": "status-table"})
     if tier != "quick":  # every 3-octet value through the generic TLV (one type: the value is opaque to it) and the LV
         for a in range(0, 256, 8):
             items.append({"kind": "tlv3", "lo": a, "hi": a + 8})
@@ -485,6 +489,83 @@ def check_refuse(rec: Rec, ctor: str, n: int, fill: int, nontrivial=True):
 
 
 # =================================================================================== shards
+# -- filestore response status codes against table 5-18 ------------------------------------------------------------------
+# enum member name of the library -> (action, meaning in the words of table 5-18); members not listed here (the three generic
+# members SUCCESS / NOT_PERFORMED / APPEND_FROM_DATA_FILE_NOT_EXISTS, INVALID, and any member a tree may add) are not judged
+STATUS_MEMBER_MEANING = {
+    "CREATE_SUCCESS": (0, "successful"), "CREATE_NOT_ALLOWED": (0, "create not allowed"), "CREATE_NOT_PERFORMED": (0, "not performed"),
+    "DELETE_SUCCESS": (1, "successful"), "DELETE_FILE_DOES_NOT_EXIST": (1, "file does not exist"), "DELETE_NOT_ALLOWED": (1, "delete not allowed"),
+    "DELETE_NOT_PERFORMED": (1, "not performed"),
+    "RENAME_SUCCESS": (2, "successful"), "RENAME_OLD_FILE_DOES_NOT_EXIST": (2, "old file name does not exist"),
+    "RENAME_NEW_FILE_DOES_EXIST": (2, "new file name already exists"), "RENAME_NOT_ALLOWED": (2, "rename not allowed"), "RENAME_NOT_PERFORMED": (2, "not performed"),
+    "APPEND_SUCCESS": (3, "successful"), "APPEND_FILE_NAME_ONE_NOT_EXISTS": (3, "file name 1 does not exist"),
+    "APPEND_FILE_NAME_TWO_NOT_EXISTS": (3, "file name 2 does not exist"), "APPEND_NOT_ALLOWED": (3, "append not allowed"), "APPEND_NOT_PERFORMED": (3, "not performed"),
+    "REPLACE_SUCCESS": (4, "successful"), "REPLACE_FILE_NAME_ONE_TO_BE_REPLACED_DOES_NOT_EXIST": (4, "file name 1 does not exist"),
+    "REPLACE_FILE_NAME_TWO_REPLACE_SOURCE_NOT_EXIST": (4, "file name 2 does not exist"), "REPLACE_NOT_ALLOWED": (4, "replace not allowed"),
+    "REPLACE_NOT_PERFORMED": (4, "not performed"),
+    "CREATE_DIR_SUCCESS": (5, "successful"), "CREATE_DIR_CAN_NOT_BE_CREATED": (5, "directory cannot be created"), "CREATE_DIR_NOT_PERFORMED": (5, "not performed"),
+    "REMOVE_DIR_SUCCESS": (6, "successful"), "REMOVE_DIR_DOES_NOT_EXIST": (6, "directory does not exist"), "REMOVE_DIR_NOT_ALLOWED": (6, "delete not allowed"),
+    "REMOVE_DIR_NOT_PERFORMED": (6, "not performed"),
+    "DENY_FILE_DEL_SUCCESS": (7, "successful"), "DENY_FILE_DEL_NOT_ALLOWED": (7, "delete not allowed"), "DENY_FILE_DEL_NOT_PERFORMED": (7, "not performed"),
+    "DENY_DIR_DEL_SUCCESS": (8, "successful"), "DENY_DIR_DEL_NOT_ALLOWED": (8, "delete not allowed"), "DENY_DIR_DEL_NOT_PERFORMED": (8, "not performed"),
+}
+
+
+def check_status_member(rec: Rec, name: str):
+    """a status the library offers under a name of table 5-18 encodes to the nibble the table gives for that meaning"""
+    L = lib()
+    action, meaning = STATUS_MEMBER_MEANING[name]
+    case = {"kind": "status-member", "name": name}
+    rec.case(True, ops=2)
+    enum_cls = L.FilestoreResponseStatusCode
+    if not hasattr(enum_cls, name):
+        rec.outcome("status-member/absent")
+        return
+    want = R.STD_STATUS_BY_MEANING[(action, meaning)]
+    got = int(getattr(enum_cls, name))
+    if got != (action << 4 | want):
+        rec.violation("C08.status/FilestoreResponseStatusCode/member-does-not-encode-the-status-of-table-5-18", case,
+                      {"member": name, "value": got, "action": got >> 4, "status_nibble": got & 0xF}, {"action": action, "status_nibble": want, "meaning": meaning},
+                      repro=f"from spacepackets.cfdp.tlv import FilestoreResponseStatusCode as S; assert S.{name} == {action << 4 | want:#04x}")
+        return
+    ref = R.filestore_response_tlv(action, want, b"a", b"b" if action in R.TWO_NAME_ACTIONS else b"", b"")
+    try:
+        t = UNITS["FileStoreResponseTlv"].build({"a": action, "s": got & 0xF, "n1": "a", "n2": "b" if action in R.TWO_NAME_ACTIONS else "", "msg": hx(b"")})
+        raw = bytes(t.pack())
+    except Exception as e:
+        rec.violation("C08.status/FileStoreResponseTlv.pack/exception", case, _exc(e), ref)
+        return
+    if raw != ref:
+        rec.violation("C08.status/FileStoreResponseTlv.pack/octets", case, raw, ref)
+    rec.outcome("status-member/ok")
+
+
+def check_status_decode(rec: Rec, action: int, nibble: int):
+    """every (action, status) pair of table 5-18, as octets of a conforming peer, is decoded (not refused) and re-packs identically"""
+    L = lib()
+    case = {"kind": "status-decode", "action": action, "status": nibble}
+    rec.case(True, ops=3)
+    two = action in R.TWO_NAME_ACTIONS
+    ref = R.filestore_response_tlv(action, nibble, b"a.txt", b"b.txt" if two else b"", b"m")
+    for dname, fn in (("FileStoreResponseTlv.unpack", lambda b: L.FileStoreResponseTlv.unpack(b)),
+                      ("FileStoreResponseTlv.from_tlv", lambda b: L.FileStoreResponseTlv.from_tlv(L.CfdpTlv.unpack(b)))):
+        try:
+            d = fn(ref)
+        except Exception as e:
+            rec.violation(f"C08.status/{dname}/conforming-status-of-table-5-18-refused", case, _exc(e), "decoded",
+                          repro=f"from spacepackets.cfdp.tlv import FileStoreResponseTlv; FileStoreResponseTlv.unpack(bytes.fromhex('{ref.hex()}'))")
+            continue
+        try:
+            obs = (int(d.action_code), int(d.status_code) & 0xF, d.first_file_name, d.second_file_name if two else None, bytes(d.pack()))
+        except Exception as e:
+            rec.violation(f"C08.status/{dname}/exception-on-result", case, _exc(e), None)
+            continue
+        exp = (action, nibble, "a.txt", "b.txt" if two else None, ref)
+        if obs != exp:
+            rec.violation(f"C08.status/{dname}/fields-or-repack", case, obs, exp)
+    rec.outcome("status-decode/ok")
+
+
 # -- generic TLV histories: the type of a CfdpTlv is assignable (documented setter); observers may fill caches ----------
 TLVHIST_VALUES = [b"", b"\x07", bytes(range(1, 18))]
 
@@ -557,6 +638,15 @@ def run_shard(item):
     kind = item["kind"]
     if kind == "tlvhist":
         run_tlvhist(rec, item)
+        return rec.result()
+    if kind == "status-table":
+        for name in STATUS_MEMBER_MEANING:
+            check_status_member(rec, name)
+        for action, nibbles in R.STD_STATUS_CODES.items():
+            for nb in nibbles:
+                check_status_decode(rec, action, nb)
+        rec.count("status_members_against_table_5_18", len(STATUS_MEMBER_MEANING))
+        rec.count("status_pairs_of_table_5_18_decoded", sum(len(v) for v in R.STD_STATUS_CODES.values()))
         return rec.result()
     if kind in ("tlv3", "lv3"):
         n = 0
@@ -699,6 +789,10 @@ def replay(case):
         check_refuse(rec, case["ctor"], case["n"], case["fill"])
     elif k == "tlvhist":
         check_tlv_history(rec, case["t"], bt(case["v"]), case["start"], case["seq"])
+    elif k == "status-member":
+        check_status_member(rec, case["name"])
+    elif k == "status-decode":
+        check_status_decode(rec, case["action"], case["status"])
     else:
         raise ValueError("unknown case kind %r" % (k,))
     return rec.result()
